@@ -65,7 +65,7 @@ Definition C18_race_free : Prop := forall ks cw cf ls s,
     them at all.  Likewise Shutdown's write of *shutdownPending against the loop's read. *)
 Definition C18_race_witness : list WalLoop.label := [LStart; Enq 0; RdHave 0 true].
 Definition C18_race_witness_shutdown : list WalLoop.label :=
-  [LStart; Enq 0; RdHave 0 true; RdLen 0 false; SendTok 0; LRecv; LFl; LFl; LFl; LFl; EnvShut; LAckL; LShut].
+  [LStart; Enq 0; RdHave 0 true; SendTok 0; LRecv; LFl; LFl; LFl; LFl; EnvShut; LAckL; LShut].
 
 Theorem C18_race_free_refuted : ~ C18_race_free.
 Proof.
@@ -76,13 +76,13 @@ Print Assumptions C18_race_free_refuted.
 Example C18_races_found :
   races have_access 1 C18_race_witness = [(0, 2)]
   /\ (exists s, WalLoop.run_labels (WalLoop.init [1] 10%N 10%N) C18_race_witness_shutdown = Some s)
-  /\ races shut_access 1 C18_race_witness_shutdown = [(10, 11); (10, 12)].
+  /\ races shut_access 1 C18_race_witness_shutdown = [(9, 10); (9, 11)].
 Proof. split; [vm_compute; reflexivity|]. split; [eexists; vm_compute; reflexivity|]. vm_compute. reflexivity. Qed.
 
 (** ordered accesses are not reported: a writer's SECOND request reads haveWALWriter after its first
     request's acknowledgement, which orders it after LStart (modelled as the same goroutine id). *)
 Example C18_no_false_race :
-  races have_access 2 [LStart; Enq 0; RdHave 0 true; RdLen 0 false; SendTok 0; LRecv; LFl; LFl; LFl; LFl; LAckL] = [(0, 2)].
+  races have_access 2 [LStart; Enq 0; RdHave 0 true; SendTok 0; LRecv; LFl; LFl; LFl; LFl; LAckL] = [(0, 2)].
 Proof. vm_compute. reflexivity. Qed.
 
 Definition C18_full : Prop := C18_read_committed /\ C18_race_free.
